@@ -10,7 +10,8 @@ Definition c22_one (c : c22case) : N * (bool * bool) :=
   match c with
   | WhyCase nrel P0 base0 der0 path md answers =>
       let P := norm_program P0 in
-      let base := norm_db base0 in
+      let base_raw := norm_db base0 in
+      let base := eff_base P base_raw in
       let M := ref_model nrel P base in
       if negb (ref_ok nrel P M) then (0, (false, true))
       else
@@ -18,6 +19,7 @@ Definition c22_one (c : c22case) : N * (bool * bool) :=
         if N.eqb path 0 && negb cok then (0, (true, true))
         else
           let cls := if negb (forallb bound_before_use P) then 1
+                     else if stored_and_derived P base_raw then 4
                      else if cyclic_recursion P M then 3 else 0 in
           let items :=
             flat_map (fun ra : rel * list (tuple * option ptree) =>
@@ -37,7 +39,7 @@ Definition c22_one (c : c22case) : N * (bool * bool) :=
                   end
                 else []) (snd ra)) answers in
           let '(k, ok) := fold_items items in
-          (k, (cok && chain_corr P base (option_map norm_db der0) path md answers, ok))
+          (k, (cok && chain_corr P base_raw (option_map norm_db der0) path md answers, ok))
   end.
 
 Definition c22_check := run_checker c22_one.
